@@ -407,7 +407,10 @@ def k_key_types(comps, named):
             ann = [a for a in ann if not a.startswith('%')]      # the argument of map / set cannot carry a field name
         elif named and not any(a.startswith('%') for a in ann):
             ann.append('%' + 'pqr'[n])
-        nodes.append(annotated(t, *ann))
+        node = {k: v for k, v in t.items() if k != 'annots'}
+        if ann:
+            node['annots'] = ann
+        nodes.append(node)
     vals = [KEYS[i][1] for i in comps]
 
     def go(ns, vs):
